@@ -128,6 +128,12 @@ pub struct FaultPlan {
     /// the file's content is cut at this byte when opened (lost tail / torn write)
     #[serde(default)]
     pub truncate: Option<usize>,
+    /// simulated latency: every open / every read() call advances the simulator's clock by this
+    /// many milliseconds (slow disk, network file system); benign - must not change any result
+    #[serde(default)]
+    pub open_latency_ms: u64,
+    #[serde(default)]
+    pub read_latency_ms: u64,
 }
 
 impl FaultPlan {
@@ -206,6 +212,8 @@ pub struct ReaderStats {
     pub reads_after_end: usize,
     pub max_buf: usize,
     pub body_len: usize,
+    /// simulated milliseconds this reader advanced the clock by
+    pub sim_ms: u64,
 }
 
 struct Shared {
@@ -253,6 +261,11 @@ fn fire(sh: &mut Shared, name: &str) {
 impl FileReader<SimRead> for SimFileReader {
     fn read(&self, path: &Path) -> io::Result<SimRead> {
         let mut sh = self.shared.borrow_mut();
+        if sh.plan.open_latency_ms > 0 {
+            instant::sim::advance(std::time::Duration::from_millis(sh.plan.open_latency_ms));
+            sh.stats.sim_ms += sh.plan.open_latency_ms;
+            fire(&mut sh, "latency:open");
+        }
         let p = path.to_string_lossy().to_string();
         sh.stats.opens.push(p.clone());
         let idx = sh.open_idx;
@@ -385,6 +398,11 @@ impl Read for SimRead {
     fn read(&mut self, buf: &mut [u8]) -> io::Result<usize> {
         let mut sh = self.shared.borrow_mut();
         sh.stats.read_calls += 1;
+        if sh.plan.read_latency_ms > 0 {
+            instant::sim::advance(std::time::Duration::from_millis(sh.plan.read_latency_ms));
+            sh.stats.sim_ms += sh.plan.read_latency_ms;
+            fire(&mut sh, "latency:read");
+        }
         if buf.len() > sh.stats.max_buf {
             sh.stats.max_buf = buf.len();
         }
